@@ -7,7 +7,7 @@ TRUSTED_ALLOW = {
           'external_body:shim_u16_from_le_bytes', 'external_body:shim_u64_from_le_bytes', 'external_body:shim_le_u16',
           'external_body:shim_le_u32', 'external_body:shim_le_u64', 'external_body:to_le_bytes_shim', 'external_body:shim_u32_from_le_bytes',
           'external_body:axiom_float_le_roundtrip', 'external_body:shim_f32_from_le_bytes', 'external_body:shim_f64_from_le_bytes',
-          'external_body:shim_u128_from_le_bytes'},
+          'external_body:shim_u128_from_le_bytes', 'external_body:shim_vec_u8_zeros'},
     'bits': {
         'external_body:vec_drain_prefix', 'external_body:vec_drain_all', 'external_body:shim_u128_from_le_bytes',
         'external_body:shim_u64_to_le_bytes', 'external_body:shim_u32_to_le_bytes', 'external_body:shim_i128_ilog2',
@@ -337,7 +337,7 @@ PROPS['C01'] = {
 PROPS['C10']['assumptions'] += _PCW2
 PROPS['C14']['assumptions'] += _PCW2
 PROPS['C14']['claim'] += ' Unit pcw (Verus, real bodies): PointCloudWriter::new creates empty bounds exactly for the attribute groups present and default limits = declared range of the first Intensity / ColorRed,Green,Blue record types; add_point folds min/max over the records of the point for all 18 bound fields (frame over the structs), leaves them untouched when the point is rejected; write_buffer_to_disk never touches bounds/limits; finalize moves bounds and limits unchanged into the published descriptor.'
-PROPS['C01']['kani'] = ['bsw_k', 'bsr_k']
+PROPS['C01']['kani'] = ['bsw_k', 'bsr_k', 'bits_k']
 PROPS['C06']['verus'] = ['page_w', 'page_r', 'blob']
 PROPS['C02']['verus'] = ['page_w', 'fmt', 'blob', 'e57w', 'pcw']
 PROPS['C16']['verus'] = ['page_w', 'page_r', 'rd_top', 'blob', 'e57w', 'pcw']
@@ -369,6 +369,7 @@ for _p in ('C11', 'C16', 'C06', 'C02', 'C15'):
     PROPS[_p]['native'] = ['pw_n']
 for _p in ('C16', 'C06', 'C02'):
     PROPS[_p]['native'] = ['pw_n', 'blob_n']
+PROPS['C15']['native'] = ['pw_n', 'e57w_n']
 for _p in ('C14', 'C10', 'C01'):
     PROPS[_p]['native'] = ['pcw_n']
 for _p in ('C17', 'C09', 'C03', 'C05', 'C07', 'C08'):
